@@ -28,6 +28,7 @@
 #include <operators.h>
 #undef private
 #undef protected
+#include "c10_ops.h"
 
 using namespace OpenMEEG;
 
@@ -106,6 +107,70 @@ static FWire dispatch(const std::string& comp,Reader& r,FReader&) {
     Geometry geo(gf,cf,old);
     const Integrator integrator(3,0,0.005);   // the default of HeadMat (assemble.h)
     FWire out;
+    const std::string dir = gf.substr(0,gf.rfind('/'));
+    if (op==4 || op==5 || op==7 || op==9) {
+        c10::Kernels kf;
+        kf.S = [&](const Triangle& t1,const Triangle& t2) { const analyticS a(t1); const auto& f = [&a](const Vect3& r) { return a.f(r); }; return integrator.integrate(f,t2); };
+        kf.D = [&](const Triangle& t1,const Triangle& t2) { const analyticD3 a(t2); const auto& f = [&a](const Vect3& r) { return a.f(r); }; const Vect3 v = integrator.integrate(f,t1); return v; };
+        kf.Sp = [](const Triangle& t,const Vect3& p,ll) { const analyticS a(t); return a.f(p); };
+        kf.Dp = [](const Triangle& t,const Vect3& p,ll) { const analyticD3 a(t); return a.f(p); };
+        kf.reg = [](const Geometry&,const Mesh*,const std::vector<Vect3>&) { };
+        return c10::run(op,dir,geo,r,integrator,kf);
+    }
+    if (op==6) {   // Head2MEGMat
+        const Sensors sq((dir+"/squids.txt").c_str());
+        const Matrix& positions = sq.getPositions(); const Matrix& orientations = sq.getOrientations();
+        const unsigned npts = sq.getNumberOfPositions();
+        out.z.push_back(ST_OK);
+        c10::shape(geo,nullptr,out.z);
+        out.z.push_back((ll)geo.vertices().size()); out.z.push_back((ll)npts);
+        const SparseMatrix W = sq.getWeightsMatrix();
+        out.z.push_back((ll)W.tank().size());
+        for (const auto& e : W.tank()) { out.z.push_back((ll)e.first.first); out.z.push_back((ll)e.first.second); }
+        out.z.push_back((ll)sq.getNumberOfSensors());
+        c10::common_floats(geo,nullptr,out.f);
+        out.f.push_back(MagFactor);
+        for (const auto& m : geo.meshes()) out.f.push_back(geo.conductivity_jump(m));
+        for (unsigned i=0;i<npts;++i) for (unsigned k=0;k<3;++k) out.f.push_back(orientations(i,k));
+        for (const auto& e : W.tank()) out.f.push_back(e.second);
+        for (const auto& m : geo.meshes()) {
+            if (m.isolated()) continue;
+            for (unsigned i=0;i<npts;++i) {
+                const Vect3 x(positions(i,0),positions(i,1),positions(i,2));
+                for (const auto& vp : m.vertices())
+                    for (const auto& tp : m.triangles(*vp)) {
+                        const Edge& edge = tp->edge(*vp);
+                        const analyticS a(*vp,edge.vertex(0),edge.vertex(1));
+                        out.f.push_back(a.f(x));
+                    }
+            }
+        }
+        const Matrix M = Head2MEGMat(geo,sq);
+        c10::out_matrix(M,out);
+        return out;
+    }
+    if (op==8) {   // Head2ECoGMat on the first boundary interface of domain <k>
+        const size_t kd = r.n();
+        if (kd>=geo.domains().size() || geo.domains()[kd].boundaries().empty()) throw Reader::Malformed();
+        const Interface& itf = geo.domains()[kd].boundaries().front().interface();
+        const Sensors el((dir+"/ecog.txt").c_str());
+        const Matrix& positions = el.getPositions();
+        out.z.push_back(ST_OK);
+        c10::shape(geo,nullptr,out.z);
+        out.z.push_back((ll)positions.nlin());
+        c10::common_floats(geo,nullptr,out.f);
+        for (unsigned i=0;i<positions.nlin();++i) {
+            const Vect3 p(positions(i,0),positions(i,1),positions(i,2));
+            Vect3 alphas;
+            const auto& res = dist_point_interface(p,itf,alphas);
+            const Triangle& t = std::get<1>(res);
+            for (unsigned j=0;j<3;++j) { out.z.push_back(c10::vid(geo,t.vertex(j))); out.f.push_back(alphas(j)); }
+        }
+        const SparseMatrix Sm = Head2ECoGMat(geo,el,itf);
+        const Matrix M(Sm);
+        c10::out_matrix(M,out);
+        return out;
+    }
     if (op==1) {
         out.z.push_back(ST_OK);
         dump_shape(geo,out.z);
@@ -180,8 +245,23 @@ static FWire dispatch(const std::string& comp,Reader& r,FReader&) {
             resid = 0.0;
             for (unsigned i=0;i<n;++i) for (unsigned j=0;j<n;++j) resid = std::max(resid,std::fabs(P(i,j)-(i==j ? 1.0 : 0.0)));
         }
-        out.z = Wire{ST_OK,(ll)n,npot,ndefl,(ll)geo.isolated_parts().size(),(ll)geo.meshes().size()};
-        out.f = { worst, smin, smax, resid };
+        // cavity walls (theorem cavity_wall_indicator_in_kernel): current barrier, not isolated, not deflated
+        double hmax = 0.0; for (size_t k=0;k<H.size();++k) hmax = std::max(hmax,std::fabs(H.data()[k]));
+        double cav = -1.0; ll ncav = 0;
+        for (const auto& m : geo.meshes()) {
+            if (!m.current_barrier() || m.isolated()) continue;
+            bool deflated = false;
+            for (const auto& part : geo.isolated_parts()) for (const auto& mp : part) if (mp==&m && m.outermost()) deflated = true;
+            if (deflated) continue;
+            ++ncav;
+            for (unsigned i=0;i<n;++i) {
+                double s = 0.0;
+                for (const auto& vp : m.vertices()) if (vp->index()<n) s += H(i,vp->index());
+                cav = std::max(cav,std::fabs(s)/hmax);
+            }
+        }
+        out.z = Wire{ST_OK,(ll)n,npot,ndefl,(ll)geo.isolated_parts().size(),(ll)geo.meshes().size(),ncav};
+        out.f = { worst, smin, smax, resid, cav };
         return out;
     }
     throw Reader::Malformed();
